@@ -419,6 +419,7 @@ class BufSim:
     # ---- one step -----------------------------------------------------------------
     def step(self, w, op, res, viols):
         kind = op["op"]
+        self.grow_viols = viols  # (_grown reports into the step's list)
         if kind == "alloc":
             if op["buf"] >= len(w.bufs):
                 return False
@@ -568,8 +569,18 @@ class BufSim:
         the system put there."""
         m = w.models[b]
         old = m.capacity
-        m.grown_to(newcap)
         raw = seams.raw_bytes(w.bufs[b])
+        # the copy into the fresh storage is asked for all bytes of the old one: the library lets
+        # users keep data at offsets of their own choosing (explicit _offset placement, raw writes),
+        # so bytes outside the regions the allocator handed out have to arrive too. (Bytes of live
+        # regions are left to the global pass, which reports them under the step's own property.)
+        sh = w.shadow[b]
+        if len(sh) >= old and bytes(raw[:old]) != bytes(sh[:old]):
+            live = [(w.regions[k].off, w.regions[k].off + w.regions[k].size) for k in w.live_regions(b)]
+            bad = [j for j in range(old) if raw[j] != sh[j] and not any(s <= j < e for s, e in live)]
+            if bad:
+                self.grow_viols.append(Viol("C13", "bytes_outside_live_regions_lost_in_growth", ["grow", w.bufs[b].kind], f"buffer {b}: capacity {old}->{newcap}; byte {bad[0]} (+{len(bad)-1} more) of the old storage did not arrive in the new one"))
+        m.grown_to(newcap)
         w.shadow[b].extend(raw[old:newcap])
         w.epoch[b] += 1
         res.fault("relocate_by_growth")
